@@ -50,6 +50,14 @@ CHECKS = {
     note='Trusted: clang lowering (validated per run in each configuration), irsym, polynomial normaliser, z3. Assumptions: positive dt/damping/density/volume; couplings mutual and between non-static cells. Bounds: 3 cells x 4 nodes, <= 2 steps, 5 coupling patterns.',
     technique='symbolic execution of LLVM IR (per compile-time configuration) + z3 on normalised rational-function identities; native replay',
     design='3/C03'),
+ 'C07': dict(
+    level='other',
+    text=('Bounded symbolic proof on the narrow phase of the contact models: resolve_contact / apply_contact_forces runs in irsym on one (node, face) pair with all positions, normals, curvatures, cut-offs and strengths symbolic, '
+          'for representative ordered pairs of cell types (quick: 5 pairs, contact model 1; thorough: all 25 pairs, models 0/1/2, both cut-off orders). The kernel is replaced by its contract (C05). Per feasible path z3 proves reciprocity, '
+          'no force beyond the largest cut-off, repulsion only on the forbidden side (inverted for epithelial-vs-ECM and nucleus-vs-epithelial), node pushed toward the surface point with the reaction toward the node, couplings mutual/epithelial-only/within the adhesion cut-off.'),
+    note='Trusted: clang lowering (validated per model), irsym, normaliser, z3; kernel contract from C05. Outside: accumulation over many pairs under threads, broad phase, same-cell filtering (C06).',
+    technique='symbolic execution of LLVM IR (per contact model) + z3 nonlinear real arithmetic; native replay',
+    design='3/C07'),
  'C08': dict(
     level='other',
     text=('Bounded checking of identities and cross-references over population histories: the real solver constructor and run_iteration (division pass with divide_cell replaced by its contract, refinement, contact model 1, '
